@@ -15,6 +15,7 @@ PROPS = ["C14/Props.v"]
 DRIVER = "c14_driver.py"
 CLAUSE = {1: "copy-raised-or-class-differs", 2: "values-differ", 3: "transient-not-reset", 4: "shared-container",
           5: "container-not-bound-to-copy", 6: "invalid-accepted", 7: "mutation-not-live", 8: "write-once-lost",
+          9: "instance-child-shared-or-differs",
           11: "corr-original", 12: "corr-copy-values", 13: "corr-sharing", 14: "corr-owners", 15: "corr-probes",
           16: "corr-class"}
 
@@ -55,7 +56,8 @@ def probe_term(p):
     if p[0] == "scalar":
         return C("PScalar", p[1], C(OUT[p[2]]))
     if p[0] == "inst":
-        return C("PInst", p[1], bool(p[2]), bool(p[3]))
+        m = cmode(p[2])
+        return C("PInst", p[1], C("Some", m) if m is not None else None, bool(p[3]), bool(p[4]))
     return C("PReadOnly", p[1], C(OUT[p[2]]))
 
 
@@ -130,6 +132,17 @@ def key_fn(case, ob, step, clause):
             if (cid & oid) and demanded:
                 kinds.add("%s/copy-metadata-%s" % (_tname(d["type"]).split("(")[0], d["copy"]))
         detail = "/" + "+".join(sorted(kinds))
+    if clause == 9:
+        names = {900: "instance", 904: "list-of-instances", 905: "write-once-until-inited", 906: "dict-keys",
+                 907: "dict-values-no-copy-metadata"}
+        demanded = lambda cp: op[0] == "pickle" or cp == "deep" or (cp not in ("ref", "shallow") and (
+            op[0] == "deepcopy" or (op[0] == "clone" and op[1] == "deep")))
+        bad = sorted(names.get(q[1], str(q[1])) + ("-shared" if q[3] and demanded(q[2]) else "-differs")
+                     for q in ob["probes"] if q[0] == "inst" and ((q[3] and demanded(q[2])) or not q[4]))
+        detail = "/" + "+".join(bad)
+    if clause == 8:
+        if any(q[0] == "ro" and q[1] >= 900 and q[2] != "TraitError" for q in ob["probes"]):
+            detail = "/write-once-until-inited"
     if clause == 3 and all(t for _, _, t in ob["meta"]) and not case.get("graph"):
         detail = "/all-traits-transient"
     return "%s/%s%s" % (CLAUSE.get(clause, clause), mode, detail)
